@@ -11,6 +11,7 @@
    records, whether the header block is part of the text, or the exception raised. *)
 From Coq Require Import List ZArith Bool Lia.
 From DV Require Import Base.PyList.
+From DV Require Export Base.C18_Lists.   (* remove_nth, norm_index, sort_desc (= sorted(reverse=True)) *)
 Import ListNotations.
 Local Open Scope Z_scope.
 
@@ -77,23 +78,30 @@ Arguments Err {A} e.
 (* record( **infos ).  The recursive call is on value.copy().update(apply_to_all), which is not a
    sub-term of infos, so the recursion is on explicit fuel; fuel > ddepth infos always suffices
    (Proofs: lb_record_fuel).  None = out of fuel. *)
+Definition chapter_of (key : name) (cs : list (name * lb)) : lb :=
+  match lookup key cs with Some c => c | None => new_lb end.          (* defaultdict(Logbook) *)
+
+(* for key, value in list(infos.items()): if isinstance(value, dict): ... self.chapters[key].record(...) *)
+Section RecordLoop.
+  Variable rec_chapter : dict -> lb -> option lb.     (* value |-> chapter.record( **value.copy().update(apply_to_all) ) *)
+  Fixpoint record_loop (items : dict) (cs : list (name * lb)) : option (list (name * lb)) :=
+    match items with
+    | [] => Some cs
+    | (_, VInt _) :: r => record_loop r cs
+    | (key, VDict d) :: r =>
+        match rec_chapter d (chapter_of key cs) with
+        | None => None
+        | Some c' => record_loop r (dict_set key c' cs)
+        end
+    end.
+End RecordLoop.
+
 Fixpoint lb_record (fuel : nat) (uid : nat) (infos : dict) (l : lb) : option lb :=
   match fuel with
   | O => None
   | S f =>
     let apply_to_all := scalars infos in
-    let loop := fix loop (items : dict) (cs : list (name * lb)) : option (list (name * lb)) :=
-      match items with
-      | [] => Some cs
-      | (_, VInt _) :: r => loop r cs
-      | (key, VDict d) :: r =>
-          let chapter := match lookup key cs with Some c => c | None => new_lb end in  (* defaultdict *)
-          match lb_record f uid (dict_update d (inject apply_to_all)) chapter with
-          | None => None
-          | Some c' => loop r (dict_set key c' cs)
-          end
-      end in
-    match loop infos (chs l) with
+    match record_loop (fun d c => lb_record f uid (dict_update d (inject apply_to_all)) c) infos (chs l) with
     | None => None
     | Some cs' => Some (LB (recs l ++ [(uid, apply_to_all)]) (buff l) cs' (hdr l) (logh l))
     end
@@ -108,20 +116,25 @@ Definition lb_select (names : list name) (l : lb) : selres :=
   | _ => SelN (map (fun nm => column nm l) names)
   end.
 
-Fixpoint remove_nth {A} (k : nat) (l : list A) : list A :=
-  match l, k with
-  | [], _ => []
-  | _ :: r, O => r
-  | x :: r, S k' => x :: remove_nth k' r
-  end.
-
-Definition norm_index (i n : Z) : Z := if i <? 0 then i + n else i.
-
 (* pop(index):   item = list.pop(self, index)            -- IndexError leaves everything unchanged
                  if index < 0: index += len(self) + 1
                  if index < self.buffindex: self.buffindex -= 1
                  for chapter in self.chapters.values(): chapter.pop(index)
    An exception in a chapter propagates and leaves the partial state behind. *)
+Section PopChapters.
+  Variable pop_one : lb -> lb * res (nat * entry).
+  (* for chapter in self.chapters.values(): chapter.pop(index)  -- stops at the first exception *)
+  Fixpoint pop_chapters (cl : list (name * lb)) : list (name * lb) * option err :=
+    match cl with
+    | [] => ([], None)
+    | (k, c) :: r =>
+        match pop_one c with
+        | (c', Err e) => ((k, c') :: r, Some e)
+        | (c', Ok _) => let (r', e) := pop_chapters r in ((k, c') :: r', e)
+        end
+    end.
+End PopChapters.
+
 Fixpoint lb_pop (i : Z) (l : lb) {struct l} : lb * res (nat * entry) :=
   match l with
   | LB rs bf cs h g =>
@@ -131,27 +144,10 @@ Fixpoint lb_pop (i : Z) (l : lb) {struct l} : lb * res (nat * entry) :=
         let rs' := remove_nth (Z.to_nat (norm_index i (zlen rs))) rs in
         let idx := if i <? 0 then i + (zlen rs' + 1) else i in
         let bf' := if idx <? bf then bf - 1 else bf in
-        let go := fix go (cl : list (name * lb)) : list (name * lb) * option err :=
-          match cl with
-          | [] => ([], None)
-          | (k, c) :: r =>
-              match lb_pop idx c with
-              | (c', Err e) => ((k, c') :: r, Some e)
-              | (c', Ok _) => let (r', e) := go r in ((k, c') :: r', e)
-              end
-          end in
-        let (cs', e) := go cs in
+        let (cs', e) := pop_chapters (lb_pop idx) cs in
         (LB rs' bf' cs' h g, match e with None => Ok item | Some e => Err e end)
     end
   end.
-
-(* sorted(xs, reverse=True) on integers *)
-Fixpoint insert_desc (x : Z) (l : list Z) : list Z :=
-  match l with
-  | [] => [x]
-  | y :: r => if y <? x then x :: l else y :: insert_desc x r
-  end.
-Definition sort_desc (l : list Z) : list Z := fold_right insert_desc [] l.
 
 Fixpoint pop_all (idxs : list Z) (l : lb) : lb * option err :=
   match idxs with
@@ -182,11 +178,7 @@ Definition isnil {A} (l : list A) : bool := match l with [] => true | _ => false
 Fixpoint len_aligned (l : lb) : bool :=
   match l with
   | LB rs _ cs _ _ =>
-      (fix go (cl : list (name * lb)) : bool :=
-         match cl with
-         | [] => true
-         | (_, c) :: r => Nat.eqb (length (recs c)) (length rs) && len_aligned c && go r
-         end) cs
+      forallb (fun kc => Nat.eqb (length (recs (snd kc))) (length rs) && len_aligned (snd kc)) cs
   end.
 
 (* On a length-aligned logbook __txt__(start) raises exactly when there is no record:
@@ -194,15 +186,20 @@ Fixpoint len_aligned (l : lb) : bool :=
    - then the chapters' own __txt__ in dict order;
    - then, when the header block is requested (start == 0 and log_header), max() of an empty
      sequence -> ValueError. *)
+Section FirstErr.
+  Variable f : lb -> option err.
+  Fixpoint first_err (cl : list (name * lb)) : option err :=
+    match cl with
+    | [] => None
+    | (_, c) :: r => match f c with Some e => Some e | None => first_err r end
+    end.
+End FirstErr.
+
 Fixpoint txt_err (start : Z) (l : lb) {struct l} : option err :=
   match l with
   | LB rs _ cs h g =>
       if negb (truthy h) && isnil rs then Some IndexError
-      else match (fix go (cl : list (name * lb)) : option err :=
-                    match cl with
-                    | [] => None
-                    | (_, c) :: r => match txt_err start c with Some e => Some e | None => go r end
-                    end) cs with
+      else match first_err (txt_err start) cs with
            | Some e => Some e
            | None => if (start =? 0) && g && isnil rs then Some ValueError else None
            end
